@@ -97,6 +97,31 @@ CHECKS = {
          'finite address alphabet, not all 16^10 strings; scripted USB dongle model; "claims a URI" = connect() does not '
          'raise WrongUriType; malformed limited to the classes the statement names',
          'DESIGN.md §3 C20', 'enumeration'),
+ 'C06': ('exploration',
+         'exhaustive input enumeration plus stateless deviation-bounded exploration of reply faults, link loss and schedules on the real Memory subsystem',
+         'Part A drives every (memory id in {0,1,255}) x (7 start addresses incl. chunk boundaries and the top of the 32-bit '
+         'space) x (read lengths 0..61, write lengths 0..76, with and without progress callback) through the real Memory '
+         'class against a sparse device image: returned bytes, final image, request/chunk tiling (<= 20 / <= 25 bytes, '
+         'ascending, once), exactly one notification, no lock or record left. Part B explores 25 operation sequences (1-3 '
+         'reads / writes / flushing writes on 1-2 memories, lengths 0/1/20/21/26/45) with every single deviation (quick) / '
+         'every pair on 8 sequences (thorough) among: reply duplicated, delayed past the 1 s retry, dropped; device error '
+         'status on any request; link loss from the driver thread at any point or inside any send; thread order. Each '
+         'execution ends with a probe read and write per memory, after reconnecting when the link was lost.',
+         'SimCF memory-port model is the reference; requests issued while the link is already down are not exercised; a '
+         'read overlapping a concurrent write is only checked on untouched bytes; one genuine defect is a known finding',
+         'DESIGN.md §3 C06', 'E3'),
+ 'C08': ('exploration',
+         'exhaustive enumeration of argument alphabets, protocol versions and headers against an independent reference decoder',
+         'Every public command encoder of Commander, HighLevelCommander, Localization, Extpos, PlatformService and '
+         'LoPoAnchor is executed on the real Crazyflie object with a recording link behind the real send_packet size check: '
+         'one-argument-at-a-time over full float/fixed-point/integer alphabets (incl. float32 overflow threshold, +-inf, '
+         'nan, int16 borders), full cross products over reduced alphabets, all argument pairs, protocol versions on both '
+         'sides of each switch (thorough: every version -1..255 and full float cross products), X-mode never-set/off/on, '
+         'and all 16x4 headers through every construction route from every previous state. Every emitted packet is decoded '
+         'by an independent reference table; unrepresentable arguments must raise without a packet.',
+         'reference table = my transcription of the firmware packet layouts (port, channel, type byte, struct, scale, sign, '
+         'version switches); numpy.float32 as rounding reference; documented clamps accepted; physical units not judged',
+         'DESIGN.md §3 C08', 'enumeration'),
 }
 
 ALL = ['C%02d' % i for i in range(1, 21)]
